@@ -140,6 +140,9 @@ type Batch struct {
 	ChildInit func()
 	// ClassifyAbort maps a dead child (exit code, stderr) to an outcome.
 	ClassifyAbort func(exit int, stderr string) *Outcome
+	// ChildExe, when set, is the binary the children run (default: this
+	// binary).  It must know the same check and batch.
+	ChildExe string
 }
 
 // Check is the complete check of one property.
